@@ -306,6 +306,9 @@ def make_case(prop, rng, tier, opts=None):
     g = G(rng, lat, opts)
     tmpl = build_topology(g, prop)
     finish_policies(g)
+    invalid = None
+    if opts.get("invalid") and rng.random() < opts["invalid"]:
+        invalid = inject_invalid(g, rng)        # before the construction order is drawn: it may add nodes / edges
     ids = [n["id"] for n in g.nodes] + [e["id"] for e in g.edges]
     order = list(ids)
     if rng.random() < 0.7:
@@ -325,7 +328,7 @@ def make_case(prop, rng, tier, opts=None):
     finite = True
     for n in g.nodes:
         if n["type"] == "source":
-            if n["iat"]["form"] == "const":
+            if not isinstance(n["iat"], dict) or n["iat"]["form"] == "const":
                 finite = False
             else:
                 t_in = max(t_in, sum(n["iat"]["vals"]))
@@ -347,13 +350,8 @@ def make_case(prop, rng, tier, opts=None):
             good = [rng.randrange(cnt) for _ in range(rng.randint(0, 3))]
             n[side + "_sel"] = {"form": rng.choice(["callable", "generator"]), "vals": good + [rng.choice([cnt, cnt + 1, -1, -2])]}
             bad_index = {"node": n["id"], "side": side, "position": len(good)}
-    invalid = None
-    if opts.get("invalid") and rng.random() < opts["invalid"]:
-        invalid = inject_invalid(g, rng)
-        if finite:
-            T = max(T, t_in + 30)
-        else:
-            T = max(T, 20)
+    if invalid:
+        T = max(T, t_in + 30) if finite else max(T, 20)
     case = {"layer": "B", "T": T, "nodes": g.nodes, "edges": g.edges, "order": order, "connect_order": corder,
             "random_seed": rng.randrange(1 << 30),
             "meta": {"prop": prop, "template": tmpl, "lattice": lat_name, "finite_input": finite, "t_input_end": t_in}}
@@ -369,9 +367,36 @@ def make_case(prop, rng, tier, opts=None):
 def inject_invalid(g, rng):
     """Turn a valid model into an invalid one by exactly one defect; returns {"kind", "where"}."""
     kinds = ["edge-capacity", "buffer-mode", "negative-edge-delay", "negative-processing-delay", "negative-delay-from-callable",
-             "nonblocking-source-zero-iat", "index-out-of-range-in", "index-out-of-range-out", "negative-iat"]
+             "nonblocking-source-zero-iat", "index-out-of-range-in", "index-out-of-range-out", "negative-iat",
+             "node-without-out-edge", "node-without-in-edge", "source-with-in-edge", "sink-with-out-edge"]
     rng.shuffle(kinds)
     for k in kinds:
+        if k == "node-without-out-edge":
+            # an extra machine/splitter/combiner that is fed but has nowhere to push to
+            s0 = g.source(n_items=3)
+            m = rng.choice([g.machine, g.splitter])() if rng.random() < 0.7 else g.combiner([1])
+            if m["type"] == "combiner":
+                s0["flow"] = "pallet"
+            g.edge(s0, m, force="buffer")
+            return {"kind": k, "where": m["id"]}
+        if k == "node-without-in-edge":
+            m = rng.choice([g.machine, g.splitter])()
+            kk = g.sink()
+            g.edge(m, kk, force="buffer")
+            return {"kind": k, "where": m["id"]}
+        if k == "source-with-in-edge":
+            srcs = [n for n in g.nodes if n["type"] == "source"]
+            ms = [n for n in g.nodes if n["type"] == "machine"]
+            if srcs and ms:
+                g.edge(rng.choice(ms), rng.choice(srcs), force="buffer")
+                return {"kind": k, "where": srcs[0]["id"] if len(srcs) == 1 else [e for e in g.edges][-1]["dst"]}
+        if k == "sink-with-out-edge":
+            ks = [n for n in g.nodes if n["type"] == "sink"]
+            if ks:
+                k1 = rng.choice(ks)
+                k2 = g.sink()
+                g.edge(k1, k2, force="buffer")
+                return {"kind": k, "where": k1["id"]}
         if k == "edge-capacity":
             c = [e for e in g.edges if e["type"] != "cconv"]      # a continuous conveyor has no capacity parameter
             if c:
